@@ -602,7 +602,7 @@ var lsmScripts = map[string][]string{
 	// the same through a move into one ingest buffer
 	"ingest_tie":  {"put k 1", "rotate", "flush", "put a 2", "put k 3", "rotate", "flush", "move", "read", "drain", "read"},
 	"ingest_tie2": {"put a 1", "put k 2", "rotate", "flush", "put k 3", "rotate", "flush", "move", "read", "drain", "read", "reopen", "read"},
-	// versions written out of order across sources (F4)
+	// versions written out of order across sources (F4, repaired: LSM.Get keeps the greatest version over all sources)
 	"order": {"putv a 7 1", "rotate", "flush", "putv a 5 2", "read", "rotate", "flush", "read", "move", "read"},
 	// monotone versions through every kind of maintenance
 	// a drained ingest table whose range lies inside an existing main table: the plan must take that table as bottom
